@@ -5,7 +5,7 @@
    the senders, the reader goroutine, the exit notice, closeSend, stop and waitForResponses
    (one action = one lock region / atomic operation / pipe operation of client_runner.go), and any
    behaviour of the write path (request that cannot be marshalled, closed pipe, any other pipe error). *)
-From V Require Import C10_Spec C10_Proofs.
+From V Require Import C10_Consts C10_Spec C10_Proofs C10_LimitProofs.
 Open Scope N_scope.
 
 (* never twice *)
@@ -248,4 +248,73 @@ Example ex_proc_script :
   let s := run (proc_script [a; b; bs "c"] 2 [1] false) in
   (s.(phase_of) 0, s.(phase_of) 1, s.(phase_of) 2, s.(fired), s.(wait_ret), is_running s)
   = (Ret None, Ret None, Ret (Some EClosed), [(1, OResp b (bs "r-b")); (0, OFail a None)], Some (Some EClosed), false).
+Proof. vm_compute. reflexivity. Qed.
+
+(* ====================================================================== *)
+(* the two response-size limits: which reader is handed which             *)
+(* ====================================================================== *)
+(* consumeOutput's reader is handed the CLIENT limit (maxClientResponseSize), not the limit of the
+   server-response reader (maxServerResponseSize); both constants are regenerated from the compiled
+   code into C10_Consts.v, so this is re-proved against the values the code has now.  For ALL sizes:
+   an answer of encoded size <= the client limit - in particular every size in the window between
+   the two limits, which exists - is delivered to its own test's callback, exactly once whatever
+   happens later, with no failure recorded and every other pending test untouched; a size above the
+   client limit stops the reader right after the 4-byte prefix and delivers nothing. *)
+Theorem limits_wired :
+  (limit_of ClientOutputReader = c10_max_response /\ limit_of ServerResponseReader = c10_max_server_response) /\
+  c10_max_server_response < c10_max_response /\
+  (forall size, reader_accepts ClientOutputReader size = true <-> size <= c10_max_response) /\
+  (forall s m rest n tag i,
+     s.(rd) = RRun -> s.(buf) = frame m ++ rest -> decode m = Some (n, tag) -> lookup n s.(pending) = Some i ->
+     N.of_nat (length m) <= c10_max_response ->
+     delivered_to s (step s RStep) i n tag rest) /\
+  (forall h m rest n tag i h',
+     (run h).(rd) = RRun -> (run h).(buf) = frame m ++ rest -> decode m = Some (n, tag) ->
+     lookup n (run h).(pending) = Some i -> N.of_nat (length m) <= c10_max_response ->
+     let s := run (h ++ RStep :: h') in
+     times_fired i s = 1%nat /\ In (i, OResp n tag) s.(fired)) /\
+  (forall s size body,
+     s.(rd) = RRun -> s.(buf) = be32 size ++ body -> c10_max_response < size < 4294967296 ->
+     let s' := step s RStep in
+     s'.(rd) = RStop1 ROversize /\ s'.(fired) = s.(fired) /\ s'.(pending) = s.(pending) /\ s'.(term) = true).
+Proof. exact limits_wired_proof. Qed.
+Print Assumptions limits_wired.
+
+(* the harness makes an answer as large as it likes with a padding field; such an answer decodes to
+   the same (name, marker) as the plain one ... *)
+Theorem padded_decodes_like_plain : forall n tag p,
+  (length n < 128)%nat -> (length tag < 126)%nat -> p < 34359738368 ->
+  decode (encode_padded n tag p) = Some (n, tag) /\ decode (encode n tag) = Some (n, tag).
+Proof. exact padded_decodes_like_plain_proof. Qed.
+Print Assumptions padded_decodes_like_plain.
+
+(* ... so a reader at a frame boundary does with its frame, when the wiring lets the size through,
+   exactly what it does with the plain answer's frame (this is what the model's decoder of action
+   code 15, `padded_out`, relies on: it does not build the megabytes) *)
+Theorem padded_answer_read_like_plain : forall s n tag p rest,
+  (length n < 128)%nat -> (length tag < 126)%nat -> p < 34359738368 ->
+  reader_accepts ClientOutputReader (N.of_nat (length (encode_padded n tag p))) = true ->
+  reader_step (with_buf s (frame (encode_padded n tag p) ++ rest)) = reader_step (with_buf s (frame (encode n tag) ++ rest)).
+Proof. exact padded_answer_read_like_plain_proof. Qed.
+Print Assumptions padded_answer_read_like_plain.
+
+(* the window between the two limits is inhabited (2 MiB), its ends behave as stated *)
+Example ex_window : c10_max_server_response < 2097152 <= c10_max_response.
+Proof. split; [reflexivity|discriminate]. Qed.
+Example ex_window_sizes :
+  map (reader_accepts ClientOutputReader)
+      [c10_max_server_response - 1; c10_max_server_response; c10_max_server_response + 1; 2097152;
+       c10_max_response - 1; c10_max_response; c10_max_response + 1]
+  = [true; true; true; true; true; true; false].
+Proof. vm_compute. reflexivity. Qed.
+(* a padded answer (really built, 300 bytes of padding) is delivered like the plain one; the other
+   pending test stays pending *)
+Example ex_padded_delivered :
+  let s := run (sent 0 a ++ sent 1 b ++ [COut (frame (encode_padded b (bs "rb") 300)); RStep]) in
+  (s.(fired), s.(pending), s.(rd), s.(err)) = ([(1, OResp b (bs "rb"))], [(a, 0)], RRun, None).
+Proof. vm_compute. reflexivity. Qed.
+(* action code 15 of the case files: sizes relative to the limits *)
+Example ex_padded_out :
+  (padded_out b (bs "rb") 1 1, padded_out b (bs "rb") 2 0, padded_out b (bs "rb") 2 1, padded_out b (bs "rb") 0 5)
+  = (Some (frame (encode b (bs "rb"))), Some (frame (encode b (bs "rb"))), Some (be32 (c10_max_response + 1)), None).
 Proof. vm_compute. reflexivity. Qed.
